@@ -8,7 +8,8 @@
    - those are observed by harness/c07 only (child process, recover, watchdog, census).
    Models: Model/H1Resp.v (C04), Model/H1Limits.v, Model/BodyStages.v, Model/Decode.v (C14). *)
 From ReqV Require Import Lib.Bytes Model.Decode Model.BodyStages Model.H1Resp Model.H1Limits
-  Model.AltSvc Model.H2Frame Proofs.BodyStagesProofs Proofs.H1LimitsProofs Proofs.AltSvcProofs Proofs.C07Misc.
+  Model.AltSvc Model.H2Frame Proofs.BodyStagesProofs Proofs.H1LimitsProofs Proofs.AltSvcProofs Proofs.C07Misc
+  Model.H2Info Proofs.H2InfoProofs Model.HeaderSlots Proofs.HeaderSlotsProofs Proofs.C07DigestAlg.
 From ReqV Require Model.Digest Gen.C07Consts Model.H3Frame Model.H3Limits Proofs.H3FrameProofs Proofs.H3LimitsProofs.
 From Coq Require Import Lia.
 Local Open Scope nat_scope.
@@ -239,6 +240,68 @@ Theorem C07_h3_at_most_5_informational : forall max q input,
   end.
 Proof. exact H3LimitsProofs.h3_at_most_5_informational. Qed.
 Print Assumptions C07_h3_at_most_5_informational.
+
+(* ---------- HTTP/2 interim responses: the read loop is never stuck telling the writer ---------- *)
+
+(* every order of HEADERS blocks and of the request writer taking its notification, every status:
+   never blocked, the notification channel never over capacity, at most five interim blocks *)
+Theorem C07_h2_info_never_blocks : forall evs s,
+  i_on100 s <= on100_cap -> i_num1xx s <= h2_max_1xx ->
+  match h2_info_run false s evs with
+  | RBlocked => False
+  | RFinal _ n => n <= h2_max_1xx
+  | ROpen s' => i_on100 s' <= on100_cap /\ i_num1xx s' <= h2_max_1xx
+  | RErr => True
+  end.
+Proof. exact h2_info_never_blocks. Qed.
+Print Assumptions C07_h2_info_never_blocks.
+
+(* what the caller gets does not depend on when (or whether) the writer takes the notification *)
+Theorem C07_h2_info_writer_irrelevant : forall evs s,
+  match h2_info_run false s evs, h2_info_run false s (no_writer_events evs) with
+  | RFinal c n, RFinal c' n' => c = c' /\ n = n'
+  | RErr, RErr => True
+  | ROpen a, ROpen b => i_num1xx a = i_num1xx b
+  | _, _ => False
+  end.
+Proof. exact h2_info_writer_irrelevant. Qed.
+Print Assumptions C07_h2_info_writer_irrelevant.
+
+(* a blocking send is stuck on the second `:status 100` nobody receives *)
+Theorem C07_h2_info_blocking_refuted :
+  h2_info_run true istate0 [EvHeaders 100 false; EvHeaders 100 false; EvHeaders 200 false] = RBlocked /\
+  h2_info_run true istate0 [EvHeaders 100 false; EvWriterTakes; EvHeaders 100 false; EvHeaders 100 false; EvHeaders 200 false] = RBlocked /\
+  h2_info_run false istate0 [EvHeaders 100 false; EvHeaders 100 false; EvHeaders 100 false; EvHeaders 200 true] = RFinal 200 3.
+Proof. exact h2_info_blocking_refuted. Qed.
+Print Assumptions C07_h2_info_blocking_refuted.
+
+(* ---------- HTTP/1.1 header reader: the value slots sized from what happened to be buffered ---------- *)
+
+(* for every hint and every list of header lines the reader does not fault and builds the map it
+   builds without slots: independent of segmentation and read-buffer size *)
+Theorem C07_header_map_hint_independent : forall hint lines,
+  header_map_hinted hint lines = Some (header_map_plain lines).
+Proof. exact header_map_hint_independent. Qed.
+Print Assumptions C07_header_map_hint_independent.
+
+Theorem C07_slot_guard_on_hint_refuted :
+  slot_run false 1 1 [] [(bs "A", bs "1"); (bs "B", bs "2")] = None /\
+  slot_run true 1 1 [] [(bs "A", bs "1"); (bs "B", bs "2")] = Some (0, [(bs "A", [bs "1"]); (bs "B", [bs "2"])]).
+Proof. exact slot_guard_on_hint_refuted. Qed.
+Print Assumptions C07_slot_guard_on_hint_refuted.
+
+(* ---------- digest: the algorithm check and the hashing look up one table with one token ---------- *)
+
+Theorem C07_authorize_checks_table : forall H c uri m u p cn,
+  Digest.lookup_alg (Digest.c_algorithm c) = None ->
+  Digest.authorize H c uri m u p cn = inr Digest.EAlgNotSupported.
+Proof. exact authorize_checks_table. Qed.
+Print Assumptions C07_authorize_checks_table.
+
+Theorem C07_authorize_hash_defined : forall H c uri m u p cn fs,
+  Digest.authorize H c uri m u p cn = inl fs -> exists f, Digest.lookup_alg (Digest.c_algorithm c) = Some f.
+Proof. exact authorize_hash_defined. Qed.
+Print Assumptions C07_authorize_hash_defined.
 
 (* ---------- translator tie: limits and tables regenerated from the source ---------- *)
 
